@@ -76,7 +76,10 @@ def run_both(ctx, component, lines, flavour="ndebug", args=(), model_component=N
         k = len(impl)
         culprit = lines[k] if k < len(lines) else (lines[-1] if lines else "")
         raise HarnessCrash(component, flavour, rc, culprit, err[-3000:])
-    model = leanb.model(model_component or component, text, timeout=timeout)
+    if model_component == "tree_from_dump":
+        model = leanb.model("tree", "\n".join(impl) + "\n", timeout=timeout)
+    else:
+        model = leanb.model(model_component or component, text, timeout=timeout)
     if len(impl) != len(lines) or len(model) != len(lines):
         raise RuntimeError("%s: line count mismatch impl=%d model=%d cases=%d" % (component, len(impl), len(model), len(lines)))
     return impl, model
@@ -93,3 +96,59 @@ def lean_unproved(ctx, pid, prop_mod):
     if not ctx.violations:
         ctx.report("lean:" + pid, getattr(ctx, "lean_failure", "Lean obligations not discharged"),
                    {"theorem_or_module": prop_mod, "detail": getattr(ctx, "lean_failure", "")}, no_input=True)
+
+
+def run_harness(ctx, component, lines, flavour="ndebug", args=(), per_case_s=10.0, batch_s=None):
+    """Run case lines through psyh, surviving crashes and hangs: a case on which the process dies or stops answering
+    gets the answer 'CRASH rc=<n> <stderr tail>' / 'HANG', and the run resumes with the next case.
+    Returns the list of answers (same length as `lines`)."""
+    import resource, subprocess, time as _t
+    out_all = []
+    i = 0
+    env = dict(os.environ, ASAN_OPTIONS="detect_leaks=0:new_delete_type_mismatch=0:abort_on_error=0", UBSAN_OPTIONS="print_stacktrace=1")
+
+    def limits():
+        if "asan" not in flavour:
+            resource.setrlimit(resource.RLIMIT_AS, (6 << 30, 6 << 30))
+    while i < len(lines):
+        chunk = lines[i:]
+        budget = batch_s or (per_case_s + 0.02 * len(chunk))
+        p = subprocess.Popen([build.psyh(flavour), component] + list(args), stdin=subprocess.PIPE, stdout=subprocess.PIPE, stderr=subprocess.PIPE,
+                             env=env, preexec_fn=limits)
+        try:
+            o, e = p.communicate(("\n".join(chunk) + "\n").encode(), timeout=budget)
+            rc = p.returncode
+            hang = False
+        except subprocess.TimeoutExpired:
+            p.kill()
+            o, e = p.communicate()
+            rc, hang = -9, True
+        got = o.decode("utf-8", "replace").split("\n")
+        if got and got[-1] == "":
+            got.pop()
+        elif got and (rc != 0):
+            got.pop()                      # an incomplete last line
+        got = got[:len(chunk)]
+        out_all += got
+        i += len(got)
+        if len(got) < len(chunk):
+            # the case after the last complete answer is the culprit
+            if hang and len(chunk) - len(got) > 1 and budget > per_case_s * 1.5:
+                # make sure it is this case that hangs, not the batch budget that ran out
+                p2 = subprocess.Popen([build.psyh(flavour), component] + list(args), stdin=subprocess.PIPE, stdout=subprocess.PIPE, stderr=subprocess.PIPE,
+                                      env=env, preexec_fn=limits)
+                try:
+                    o2, e2 = p2.communicate((chunk[len(got)] + "\n").encode(), timeout=per_case_s)
+                    if p2.returncode == 0 and o2.strip():
+                        out_all.append(o2.decode("utf-8", "replace").split("\n")[0]); i += 1
+                        continue
+                    e, rc, hang = e2, p2.returncode, False
+                except subprocess.TimeoutExpired:
+                    p2.kill(); p2.communicate()
+            etxt = e.decode("utf-8", "replace")
+            key = [ln.strip() for ln in etxt.split("\n") if "runtime error" in ln or "ERROR: AddressSanitizer" in ln or ln.startswith("SUMMARY") or "Assertion" in ln or "terminate called" in ln]
+            frames = [ln.strip() for ln in etxt.split("\n") if ln.strip().startswith("#") and "/repo/" in ln][:4]
+            tail = " / ".join(key[:3] + frames) if key else etxt[-600:].replace("\n", " / ")
+            out_all.append("HANG (no answer within %.0fs)" % per_case_s if hang else "CRASH rc=%s %s" % (rc, tail))
+            i += 1
+    return out_all
